@@ -81,6 +81,16 @@ def gen_config(rng, tier, flavor="db"):
         if cfg["ploidy"] == 1 and cfg["initial"] == "dup_pairs":
             cfg["initial"] = "random"
         n_pos = len(cfg["n_alleles"])
+    if flavor in ("db", "cache") and rng.random() < 0.008:
+        # rare long loci (beyond int8 / packed-key / table sizes): diploid, one or two reads, one iteration
+        cfg["ploidy"] = rng.choice([2, 2, 3])
+        cfg["n_alleles"] = [rng.choice([2, 2, 2, 3]) for _ in range(rng.choice([23, 40, 70, 130, 140]))]
+        cfg["n_reads"] = rng.choice([1, 2])
+        cfg["steps"] = 1
+        cfg["chains"] = 1
+        cfg["temperatures"] = cfg["temperatures"][-2:]
+        cfg["long_locus"] = True
+        n_pos = len(cfg["n_alleles"])
     if cfg["n_intervals"] is not None:
         cfg["n_intervals"] = max(1, min(cfg["n_intervals"], n_pos))
     if cfg["entry"] == "direct" and cfg["n_reads"] == 0:
